@@ -17,3 +17,10 @@ UNITS += [
        bound="<= 3 comments of <= 4 characters, tag <= 2 characters; all byte values symbolic",
        note="query / query_count against an independent specification; fulltag freed; comment_clear releases everything, idempotent"),
 ]
+UNITS += [
+  Unit("info_headerin", ["C02", "C01"], "lib/info.c", enforce="vorbis_synthesis_headerin", harness="h_headerin.c", entry="h_headerin",
+       replace=["oggpack_read", "oggpack_readinit", "_vorbis_unpack_info", "_vorbis_unpack_comment", "_vorbis_unpack_books"],
+       unwindset=["_v_readstring.0:8", "memcmp.0:8"], reach=5, timeout=600,
+       assumed=["the three unpackers by contract; what each needs from the dispatcher (fresh info / no previous comments / a setup structure without books) is an obligation at the call site"],
+       note="header dispatcher for packets in ANY order and with any flags: at most one unpacker runs; ID header only on a b_o_s packet into a fresh info, comments only after it and once, setup only after both, with a setup structure present and empty; every other packet is refused with a documented code and touches nothing"),
+]
